@@ -100,6 +100,30 @@ fn one_case(ctx: &Ctx, case: u64, l: &mut Local) {
                       "disclosures_presented": parts.disclosures.len(), "disclosures_issued": issued.parts.disclosures.len(), "kb_jwt_len": honest_kb.len()});
     l.sample(case, || desc.clone());
 
+    // ---- honest key-bound presentations from a REUSED holder are accepted as well: a second and
+    // a third presentation with other selections (often of equal size) and other aud / nonce
+    if let Outcome::Ok(mut h) = api::holder_new(&issued.sd_jwt, fmt) {
+        let _ = api::present(&mut h, &sel, Some(&kb));
+        for round in 0..3 {
+            let sel2 = if round == 0 { crate::gen::narrow_selection(&mut r, &sel) } else { pipeline::random_selection(&mut r, &s.u) };
+            let kb2 = pipeline::kb_args_for(&mut r, (halg, 0));
+            if let Outcome::Ok(p2) = api::present(&mut h, &sel2, Some(&kb2)) {
+                let v = api::verify(&p2, &resolver, Some((&kb2.aud, &kb2.nonce)), fmt);
+                l.evals += 1;
+                if v.out.is_ok() {
+                    l.count("control.reused-holder.accepted");
+                } else {
+                    l.violate(Violation {
+                        subcheck: "control-rejected".into(),
+                        class: format!("honest key-bound presentation #{} of a reused holder ({} holder, {})", round + 2, halg.name(), fmt.name()),
+                        observed: v.out.panic_signature().unwrap_or_else(|| v.out.describe()),
+                        case,
+                        detail: json!({"config": cfg.describe(), "first_selection": sel, "selection": sel2, "history": api::history()}),
+                    });
+                }
+            }
+        }
+    }
     // ---- control
     let control = api::verify(&pres, &resolver, Some((&aud, &nonce)), fmt);
     l.evals += 1;
@@ -211,7 +235,7 @@ fn one_case(ctx: &Ctx, case: u64, l: &mut Local) {
         must_reject(l, "resigned-alg-none", 0, &with_kb(Some(format!("{hdr}.{pl}."))), a, n, 0);
     }
     // 4. typ absent or different (validly signed by the holder key)
-    for (i, typ) in [None, Some("jwt"), Some("JWT"), Some("KB+JWT"), Some("kb+jwt "), Some("kb-jwt"), Some("sd+jwt")].iter().enumerate() {
+    for (i, typ) in [None, Some("jwt"), Some("JWT"), Some("KB+JWT"), Some("kb+jwt "), Some("kb-jwt"), Some("sd+jwt"), Some("application/kb+jwt"), Some("application/application/kb+jwt"), Some(" kb+jwt"), Some("kb+jwt;v=1"), Some("kb+jwt\n"), Some("Kb+Jwt"), Some("xkb+jwt"), Some("")].iter().enumerate() {
         must_reject(l, "typ", i as u64, &with_kb(Some(api::sign_kb(halg, 0, &honest_payload(), *typ))), a, n, 0);
     }
     // 5. nonce / aud absent or different
